@@ -12,6 +12,19 @@ CHECKS = {
  "C05": ("model_checking", "HIST", "explicit-state exploration of all in-place/view histories <= depth, each closed by backward(); complex-step re-execution of the NumPy shadow history as gradient reference",
          "Every history up to the bound is closed by a weighted-sum terminal over all live tensors and backward(); every live tensor's .grad is compared with the complex-step derivative of the same statements executed by NumPy (which itself implements 'reads before a write see old values').",
          "complex-step (h=1e-20) on NumPy complex128; tolerance 1e-9; .shape= excluded", "3/C05"),
+
+ "C07": ("model_checking", "HIST", "explicit-state exploration of all histories <= depth over views / ops / in-place updates / backward / null_grad on the real library with the cyclic GC disabled; weakref liveness + gradient-staleness oracle after every statement",
+         "All histories up to the bound are executed with the collector off; after every backward every graph object the program does not hold must be dead and every held tensor detached; gradients must persist / vanish exactly at the events the property names; any exception from a legal statement is a violation.",
+         "liveness via weakrefs from an iterative walk of the real graph; private attrs _creator/_ops/_base read; views identified by the implementation's .base", "3/C07"),
+ "C08": ("model_checking", "HIST", "explicit-state exploration of all histories <= depth over caller arrays, NumPy views, tensors, out= targets, failing ops, backward/clear_graph and reference drops in every order, from the empty and from pre-built worlds; writeable-flag rule checked after every statement",
+         "Every interleaving of locking statements and release events (backward, clear_graph, failing op, dropping any reference) up to the bound is executed; the live graph is read off the implementation and every array's writeable flag is compared with the rule of C08 after each statement and at quiescence.",
+         "ops whose upstream was cleared after they were recorded are waived (the property waives them); restoration judged per memory family", "3/C08"),
+ "C09": ("model_checking", "HIST", "explicit-state exploration of all histories <= depth over new ops / in-place updates / backward / clear_graph, each closed by L.backward() for every live L; complex-step derivative of the forward computation as recorded (detach at clear events) as reference",
+         "Every history up to the bound with at least one clear event is closed by backward() on every live tensor; outcome must be InvalidBackprop or exactly the recorded computation's gradients.",
+         "one leaf, no views; which tensors a clear event detaches is read off the implementation's graph", "3/C09"),
+ "C13": ("fault_enumeration", "HIST", "exhaustive fault enumeration: every history <= depth x every insertion position x every kind of failing statement x every live tensor as target, differential against the fault-free run on the real library",
+         "All single-fault insertions into all histories up to the bound; the run with the failing statement must be observationally identical (per statement and in the final gradients) to the run without it.",
+         "differential oracle (no expected values); creator kind / live consumer count read from private attributes", "3/C13"),
 }
 NA = {}
 def main():
